@@ -54,3 +54,18 @@
     pub open spec fn bound_of_qname(d: RustDocument, qname: Seq<char>) -> Option<Rc<Namespace>> {
         match prefix_of(qname) { Some(p) => bound_ns(d, p), None => None }
     }
+//# section: lookup-spec
+    // C09: a reference (Name, namespace bound to the prefix) denotes the global component called Name in THAT namespace; where a type is
+    // wanted (base of an extension) a global element of the same name is a different component
+    pub open spec fn type_name(t: RustType) -> Option<Seq<char>> {
+        match t { RustType::Complex(p) => Some(p.xml_name@), RustType::Simple(p) => Some(p.xml_name@), RustType::Element(p) => Some(p.xml_name@), RustType::Ignore => None }
+    }
+    pub open spec fn ns_opt_same(a: Option<Rc<Namespace>>, b: Option<&Namespace>) -> bool {
+        match (a, b) { (Some(x), Some(y)) => ns_same(*x, *y), (None, None) => true, _ => false }
+    }
+    pub open spec fn denotes(n: RustNode, name: Seq<char>, ns: Option<&Namespace>, types_only: bool) -> bool {
+        type_name(n.rust_type) == Some(name) && ns_opt_same(n.in_namespace, ns) && !(types_only && n.rust_type is Element)
+    }
+    pub closed spec fn table_has(d: RustDocument, name: Seq<char>, ns: Option<&Namespace>, types_only: bool) -> bool {
+        exists|i: int| 0 <= i < d.nodes@.len() && denotes(*#[trigger] d.nodes@[i], name, ns, types_only)
+    }
